@@ -202,10 +202,15 @@ class SymmetryTranslator:
         for index_subset in largest_subset(range(0, len(potential_equalities))):
             used_variables: set[AST] = set()
             used_uneq_variables: dict[int, set[AST]] = defaultdict(set)
+            kept_variables: set[AST] = set()  # variables at the equal positions stay in the rewritten literals
             lits: list[AST] = list(lits_param)
             for index in index_subset:
+                uneq_positions = set(potential_strict_inequalities[index]) | set(potential_nstrict_inequalities[index])
                 for lit in potential_equalities[index]:
                     lits.remove(lit)
+                    for pos, arg in enumerate(lit.atom.symbol.arguments):
+                        if pos not in uneq_positions:
+                            kept_variables.update(collect_ast(arg, "Variable"))
                 for pos, neq_lits in chain(
                     potential_strict_inequalities[index].items(), potential_nstrict_inequalities[index].items()
                 ):
@@ -213,7 +218,7 @@ class SymmetryTranslator:
                     for pred in potential_equalities[index]:
                         used_variables.update(collect_ast(pred.atom.symbol.arguments[pos], "Variable"))
                         used_uneq_variables[index].update(collect_ast(pred.atom.symbol.arguments[pos], "Variable"))
-            if len((global_vars_inside_body(lits) | global_vars) & used_variables) == 0:
+            if len((global_vars_inside_body(lits) | global_vars | kept_variables) & used_variables) == 0:
                 # built ccs, in a cc, only one comparison can be improved
                 g = nx.Graph()
                 for index1 in index_subset:
